@@ -285,6 +285,13 @@ def table_u(facts, rep, w, rule="R09.1", only=None):
         ss = ov.path_sites(b, (op,))
         if not ss:
             rep.fail(rule, b.id, "%s: delegation present" % op, "no %s call found" % op, b.span)
+        # the setter decides nothing itself: whether the entry is there and whether the time can be set is the write layer's answer
+        # (FileNotFound, NotSupported) — no error kind is built in the setter or the private helpers it calls
+        kinds_s, _calls_s = ov.inter.kinds_and_calls(b)
+        n += 1
+        rep.ob(rule, b.id, "%s: builds no error of its own" % op, not kinds_s, "" if not kinds_s else
+               "the overlay's %s answers %s itself: the class the write layer reports for this path (not-found, not-supported) is replaced"
+               % (op, sorted(kinds_s)), b.span)
         for cb, s, tr, recv in ss:
             sets = ov.path_guard_sets(cb, s.bb)
 
@@ -354,7 +361,43 @@ def resolver_rules(facts, rep, w, rule="R09.3"):
     n = 0
     res = [b for b in ov.helpers.values() if ov._is_resolver(b)]
     rep.ob(rule, w.overlay, "resolver present", len(res) >= 1, "%d helper(s) returning a path of any layer" % len(res), "")
+    # a resolver may keep its layer loop in a private helper of its own (`first_layer_with(path) -> VfsResult<Option<VfsPath>>`): such a
+    # helper — itself "returning a path of any layer", but called by resolvers only — is part of the resolver that calls it: its lookups
+    # are judged there, under the guards of the call (the marker test in front of it)
+    res_ids = {b.id for b in res}
+    callers_of = {}
+    for hb_ in list(ov.ops.values()) + list(ov.helpers.values()):
+        for cb_ in ov.inter.code_bodies(hb_):
+            for s_ in ov.inter.sites(cb_):
+                c_ = ov.inter.local_callee(s_)
+                if c_ is not None and c_.id in res_ids and c_.id != hb_.id:
+                    callers_of.setdefault(c_.id, set()).add(hb_.id)
+    inner = {b.id for b in res if callers_of.get(b.id) and callers_of[b.id] <= res_ids}
     for b in res:
+        if b.id in inner:
+            # (what the helper hands out is a layer path whose own exists() held — the marker in front of it is the caller's business)
+            cbi = ov.inter.code_body(b)
+            for ct, _, bb in ov.inter.ret_cases(b):
+                if ov.inter.case_polarity(ct) == "err":
+                    continue
+                v = ct[3][0][1] if ct[0] == "agg" and ct[3] else ct
+                if v[0] == "agg" and v[2] == "Some" and v[3]:
+                    v = v[3][0][1]
+                if "anylayer" in ov.origin_class(v):
+                    gs = ov.guards(cbi, bb)
+                    ok = any(g[0] == "bool" and g[2] is True and peel(g[1])[0] == "call" and sname(peel(g[1])[1]) == "exists" and
+                             norm(peel(g[1])[2][0]) == norm(v) for g in gs)
+                    n += 1
+                    rep.ob(rule, b.id, "resolver: first layer that has the path is returned", ok, "" if ok else
+                           "a layer path is returned without its exists() having held", cbi.blocks[bb].term.line)
+            continue
+        inner_lookups = []      # (site, guards in b's name space) of layer lookups made inside inner helpers this resolver calls
+        for cbx, sx, trx, subx, outerx, _ax, _sfx in ov.deep_sites_x(b):
+            hx = facts.body(cbx.root) if cbx.kind == "Closure" and cbx.root else cbx
+            if hx is not None and hx.id in inner and sname(sx.path) == "exists" and sx.args and \
+                    "anylayer" in ov.origin_class(trx.operand(sx.args[0])):
+                gsx = [(g[0], subx(g[1])) + tuple(g[2:]) for g in ov.guards(cbx, sx.bb)] + list(outerx)
+                inner_lookups.append((cbx, sx, trx, gsx))
         for cb in ov.inter.code_bodies(b):
             tr = get_tracer(facts, cb)
             # layer lookups: exists() on a path derived from an element of the layer vector
@@ -366,17 +409,21 @@ def resolver_rules(facts, rep, w, rule="R09.3"):
                         lookups.append(s)
             if cb is ov.inter.code_body(b):
                 n += 1
-                rep.ob(rule, b.id, "resolver: looks layers up", len(lookups) >= 1, "%d layer lookups" % len(lookups), b.span)
+                rep.ob(rule, b.id, "resolver: looks layers up", len(lookups) + len(inner_lookups) >= 1,
+                       "%d layer lookups" % (len(lookups) + len(inner_lookups)), b.span)
                 # ... every one of them: some lookup runs on the elements of an iteration over the layer vector, not only on layers
                 # picked by position (the first and the last: layers in between would be listed by read_dir, which merges all
                 # layers, but not found by exists / metadata / open_file)
-                each = any(any(o[0] == "elem" for o in ov.pf.fs_origin(tr.operand(s_.args[0]))) for s_ in lookups)
+                each = any(any(o[0] == "elem" for o in ov.pf.fs_origin(tr.operand(s_.args[0]))) for s_ in lookups) or \
+                    any(any(o[0] == "elem" for o in ov.pf.fs_origin(trx.operand(sx.args[0]))) for cbx, sx, trx, gsx in inner_lookups)
                 n += 1
                 rep.ob(rule, b.id, "resolver: every layer is consulted", each, "" if each else
                        "the resolver looks at layers picked by index only: a layer that is neither of them is never consulted, so "
                        "entries it alone holds are listed by their parent but do not exist", b.span)
-            for s in lookups:
-                gs = ov.guards(cb, s.bb)
+            todo_l = [(s, ov.guards(cb, s.bb), tr) for s in lookups]
+            if cb is ov.inter.code_body(b):
+                todo_l += [(sx, gsx, trx) for cbx, sx, trx, gsx in inner_lookups]
+            for s, gs, tr_l in todo_l:
                 mk = False
                 for g in gs:
                     if g[0] == "bool" and g[2] is False:
@@ -387,7 +434,7 @@ def resolver_rules(facts, rep, w, rule="R09.3"):
                 rep.ob(rule, b.id, "resolver: marker consulted before the layer lookup", mk, "" if mk else
                        "a layer is looked up without the deletion marker of the path having been tested first", s.line)
                 # iteration order: plain forward iteration over the layer vector
-                recv = norm(tr.operand(s.args[0]))
+                recv = norm(tr_l.operand(s.args[0]))
                 rev = any(x[0] == "call" and isinstance(x[1], str) and x[1] in ("Iterator::rev", "Iterator::skip", "Iterator::last",
                                                                               "Vec::pop", "slice::last", "Iterator::max_by_key")
                           for x in walk(recv))
@@ -426,7 +473,13 @@ def resolver_rules(facts, rep, w, rule="R09.3"):
                 gs = ov.guards(cb, bb)
                 root_case = any(g[0] == "bool" and g[2] is True and g[1][0] == "call" and g[1][1] in ("str::is_empty", "String::is_empty") and
                                 g[1][2] and norm(g[1][2][0])[0] == "arg" and norm(g[1][2][0])[1] == 1 for g in gs)
-                if "anylayer" in ov.origin_class(v) or (ov.origin_class(v) == {"upper"} and not root_case):
+                from_inner = any(x[0] == "call" and isinstance(x[1], str) and ov.inter.body_of_call(x) is not None and
+                                 ov.inter.body_of_call(x).id in inner for x in walk(norm(v)))
+                if from_inner:
+                    n += 1
+                    rep.ob(rule, b.id, "resolver: first layer that has the path is returned", True,
+                           "handed on from the resolver's own layer-loop helper (judged there)", cb.blocks[bb].term.line)
+                elif "anylayer" in ov.origin_class(v) or (ov.origin_class(v) == {"upper"} and not root_case):
                     # (a path of the write layer handed out without a look — "a single-layer overlay has nothing to resolve" —
                     # makes remove_file of a missing entry succeed and leave a marker)
                     ok = any(g[0] == "bool" and g[2] is True and peel(g[1])[0] == "call" and sname(peel(g[1])[1]) == "exists" and
@@ -695,22 +748,44 @@ def relative_join_rules(facts, rep, w, rule="R09.6"):
             return True   # `if !path.is_empty() { &path[1..] } else { path }`: the other alternative is the empty path
         return False
 
-    for b in list(ov.helpers.values()) + list(ov.ops.values()):
-        for cb, s, tr in ov.sites(b):
-            if sname(s.path) != "join" or not (s.self_ty and s.self_ty.endswith("VfsPath")) or len(s.args) < 2:
-                continue
-            recv = tr.operand(s.args[0])
-            cls = ov.origin_class(recv)
-            if not (cls & {"upper", "anylayer"}):
-                continue
-            a = norm(tr.operand(s.args[1]))
-            alts_ = a[1] if a[0] == "phi" else (a,)
-            has_stripped = any(relative(x, False) for x in alts_)
-            ok = all(relative(x, has_stripped) for x in alts_)
-            n += 1
-            rep.ob(rule, b.id, "layer paths are joined relative to the layer", ok, fmt(a)[:70] if ok else
-                   "a layer path is joined with %s, which can start with '/': the join restarts at the root of the layer's "
-                   "filesystem, so for a layer that is a sub-directory the overlay reads/writes the wrong place" % fmt(a)[:70], s.line)
+    # every join is judged in the name space of the operations that reach it: a private helper that takes the already stripped
+    # string as a parameter (`first_layer_with(&path[1..])`) is judged with the argument it is actually given
+    judged = {}     # (function id, block) -> [ok, text, site, owner]
+    reached = set()
+
+    def judge(owner, cb, s, tr, sub):
+        if sname(s.path) != "join" or not (s.self_ty and s.self_ty.endswith("VfsPath")) or len(s.args) < 2:
+            return
+        recv = sub(tr.operand(s.args[0]))
+        cls = ov.origin_class(recv)
+        if not (cls & {"upper", "anylayer"}):
+            return
+        a = norm(sub(tr.operand(s.args[1])))
+        alts_ = a[1] if a[0] == "phi" else (a,)
+        has_stripped = any(relative(x, False) for x in alts_)
+        ok = all(relative(x, has_stripped) for x in alts_)
+        key = (cb.id, s.bb)
+        if key in judged:
+            judged[key][0] = judged[key][0] and ok
+            if not ok:
+                judged[key][1] = fmt(a)[:70]
+        else:
+            judged[key] = [ok, fmt(a)[:70], s, owner]
+
+    for op in ov.ops.values():
+        for cb, s, tr, sub, outer in ov.deep_sites(op):
+            root = facts.body(cb.root) if cb.kind == "Closure" and cb.root else cb
+            reached.add(root.id if root is not None else cb.id)
+            judge(root if root is not None else op, cb, s, tr, sub)
+    for h in ov.helpers.values():
+        if h.id not in reached:
+            for cb, s, tr in ov.sites(h):
+                judge(h, cb, s, tr, lambda t: t)
+    for (cid, bb), (ok, txt, s, owner) in judged.items():
+        n += 1
+        rep.ob(rule, owner.id, "layer paths are joined relative to the layer", ok, txt if ok else
+               "a layer path is joined with %s, which can start with '/': the join restarts at the root of the layer's "
+               "filesystem, so for a layer that is a sub-directory the overlay reads/writes the wrong place" % txt, s.line)
     return n
 
 
@@ -836,6 +911,16 @@ def run(facts, rep, tier, ctx):
             if o["rule"] in ("R20.1", "R20.4") and (o["fn"].startswith("<" + w10.overlay) or o["fn"].startswith(w10.overlay + "::")):
                 rep.ob(("A/" if w10.asyncw else "") + "R09.10", o["fn"], o["key"].split("|")[2], o["ok"], o["detail"], o["loc"])
         _c04o.overlay_read_delegation(facts, rep if not w10.asyncw else c10._Prefixed(rep, "A"), w10, "R09.10o")
+    # (the copy-up of append_file is the path type's copy_file: its generic route copies the whole stream — io::copy to EOF, not a
+    # hand-written loop that stops at the first short read)
+    from ..pathrules import PathRules as _PR9g
+    for w9g in (ws, World(facts, True)):
+        if w9g.present():
+            scr9g = _Rp9("g")
+            _PR9g(facts, w9g).generic_routes(scr9g, "G")
+            for o in scr9g.obligations:
+                if o["key"].split("|")[2].split(":")[0] == "copy_file":
+                    rep.ob(("A/" if w9g.asyncw else "") + "R09.7g", o["fn"], o["key"].split("|")[2], o["ok"], o["detail"], o["loc"])
     # the union is over the layers the caller gave, resolved at each call: a constructor that filters or re-orders them (keeps only
     # the layers that exist at construction time) drops what such a layer holds later from the union (shared with C08 R08.8)
     from . import c08 as _c08
